@@ -16,6 +16,7 @@ K_LVIN = 'outline-loopvar-intent-in'
 K_LIVE = 'outline-local-live'
 K_OUT = 'outline-out-maybe-undefined'
 K_EXT = 'extract-keyword-call-external'
+K_NOCONT = 'extract-no-contains-crash'
 CLASS_ORDER = [K_CALL, K_OVR, K_PRINT, K_SHAPE, K_LVIN, K_LIVE, K_OUT]
 
 
@@ -539,9 +540,12 @@ def case_of(req):
 
 # ---------------------------------------------------------------- extraction of internal procedures (text level)
 
-def extract_source(rng):
+def extract_source(rng, region=None):
     """a host routine with one internal subroutine that uses host-associated variables, plus the hand-inlined FIR equivalent
-    (the oracle's reference).  Returns (fortran text, reference FIR program)."""
+    (the oracle's reference).  `region`: None | 'call' (a `!$loki outline` region of the host contains a call to the internal
+    procedure) | 'nocall' (a region elsewhere in the host).  Every occurrence of a variable / procedure name in the host text
+    is respelled (Fortran is case-insensitive): style 'upper-body' = declarations lower case, internal procedure body upper
+    case (legacy style); 'mixed' = every occurrence upper or lower at random; 'lower'.  Returns (fortran text, reference)."""
     n_sym = rng.random() < 0.5
     ext = 'n' if n_sym else str(rng.randint(2, 5))
     c1, c2, c3 = rng.randint(1, 4), rng.randint(0, 5), rng.randint(1, 3)
@@ -549,6 +553,7 @@ def extract_source(rng):
     use_y = rng.random() < 0.6
     twice = rng.random() < 0.5
     shadow = rng.random() < 0.4          # the internal procedure has a local that shadows a host variable
+    style = rng.choice(('upper-body', 'upper-body', 'mixed', 'mixed', 'lower'))
     inner = []
     if shadow:
         inner.append(f't = o + {c3}')
@@ -558,38 +563,62 @@ def extract_source(rng):
     if use_y:
         inner.append('y = y + 0.5')
         inner.append('k = k + 1')
-    lines = ['subroutine kernel(n, a, k, o, y)', '  implicit none', '  integer, intent(in) :: n',
-             f'  integer, intent(inout) :: a({ext})', '  integer, intent(inout) :: k', '  integer, intent(inout) :: o',
-             '  real, intent(inout) :: y', '  integer :: t', f'  t = {c2}', f'  k = k + {c2}', '  call inner(o)']
+    head = ['subroutine kernel(n, a, k, o, y)', '  implicit none', '  integer, intent(in) :: n',
+            f'  integer, intent(inout) :: a({ext})', '  integer, intent(inout) :: k', '  integer, intent(inout) :: o',
+            '  real, intent(inout) :: y', '  integer :: t']
+    S, E = '!$loki outline name(r1)', '!$loki end outline'
+    body = []
+    if region == 'nocall':
+        body += [S, f'  t = {c2}', f'  k = k + {c2}', E, '  call inner(o)']
+    elif region == 'call':
+        body += [f'  t = {c2}', f'  k = k + {c2}', S, '  call inner(o)']
+    else:
+        body += [f'  t = {c2}', f'  k = k + {c2}', '  call inner(o)']
+    if twice or region == 'call':
+        body += ['  o = o + t']
+    if region == 'call':
+        body += [E]
     if twice:
-        lines += ['  o = o + t', '  call inner(o)']
-    lines += ['  a(1) = a(1) + t', 'contains', '  subroutine inner(o)', '    integer, intent(inout) :: o']
-    if shadow:
-        lines.append('    integer :: t')
-    lines += ['    ' + s for s in inner] + ['  end subroutine inner', 'end subroutine kernel']
+        body += ['  call inner(o)']
+    body += ['  a(1) = a(1) + t']
+    inner_head = ['  subroutine inner(o)', '    integer, intent(inout) :: o'] + (['    integer :: t'] if shadow else [])
+    inner_body = ['    ' + x for x in inner]
+    names = ['n', 'a', 'k', 'o', 'y', 't', 'inner']
+    crng = _random.Random(rng.getrandbits(30))
+    if style == 'upper-body':
+        inner_body = recase_text('\n'.join(inner_body), names, crng, 'upper').split('\n')
+    elif style == 'mixed':
+        head = recase_text('\n'.join(head[:1]), [], crng).split('\n') + recase_text('\n'.join(head[1:]), names, crng).split('\n')
+        body = recase_text('\n'.join(body), names, crng).split('\n')
+        inner_head = recase_text('\n'.join(inner_head), names, crng).split('\n')
+        inner_body = recase_text('\n'.join(inner_body), names, crng).split('\n')
+    lines = head + body + ['contains'] + inner_head + inner_body + ['  end subroutine inner', 'end subroutine kernel']
     src = '\n'.join(lines) + '\n'
-    # reference: the internal procedure inlined by hand (shadowed local renamed)
-    ref_inner = [s.replace('t = ', 't_in = ').replace('+ t', '+ t_in') if shadow else s for s in inner]
+    # reference: the internal procedure inlined by hand (shadowed local renamed), region markers dropped
+    ref_inner = [x.replace('t = ', 't_in = ').replace('+ t', '+ t_in') if shadow else x for x in inner]
     ref = ['subroutine kernel(n, a, k, o, y)', '  implicit none', '  integer, intent(in) :: n',
            f'  integer, intent(inout) :: a({ext})', '  integer, intent(inout) :: k', '  integer, intent(inout) :: o',
            '  real, intent(inout) :: y', '  integer :: t', '  integer :: t_in', f'  t = {c2}', f'  k = k + {c2}']
-    ref += ['  ' + s for s in ref_inner]
+    ref += ['  ' + x for x in ref_inner]
+    if twice or region == 'call':
+        ref += ['  o = o + t']
     if twice:
-        ref += ['  o = o + t'] + ['  ' + s for s in ref_inner]
+        ref += ['  ' + x for x in ref_inner]
     ref += ['  a(1) = a(1) + t', 'end subroutine kernel']
     return src, '\n'.join(ref) + '\n'
 
 
-def real_extract(src, form):
-    """extract_internal_procedures through ExtractTransformation; form 'file': the host is a free subroutine
-    (transform_file), form 'mod': the host is wrapped in a module (transform_module).  Returns (Sourcefile, fgen text)"""
+def real_extract(src, form, flags='extract'):
+    """the real `ExtractTransformation` entry points: form 'file': the host is a free subroutine (transform_file on the
+    Sourcefile), form 'mod': the host is wrapped in a module (transform_module on the Module); flags 'extract' / 'outline' /
+    'both' = which of extract_internals / outline_regions is switched on.  Returns (Sourcefile, fgen text)"""
     from loki import fgen
     from loki.transformations.extract import ExtractTransformation
     if form == 'mod':
         src = 'module m\nimplicit none\ncontains\n' + src + 'end module m\n'
     sf = fir.parse_fortran(src)
     try:
-        t = ExtractTransformation(extract_internals=True, outline_regions=False)
+        t = ExtractTransformation(extract_internals=flags in ('extract', 'both'), outline_regions=flags in ('outline', 'both'))
         if form == 'mod':
             t.transform_module(sf['m'])
         else:
@@ -598,6 +627,48 @@ def real_extract(src, form):
     except Exception as e:
         raise TransformError(f'{type(e).__name__}: {str(e)[:120]}') from e
     return sf, text
+
+
+def known_no_contains(src):
+    """Lean-free class predicate `extract-no-contains-crash`: a procedure handed to extract_internal_procedures (= every
+    top-level routine of the file / module) has no CONTAINS section"""
+    return any(r.contains is None for r in fir.parse_fortran(src).subroutines)
+
+
+def top_routines(sf, form):
+    return list(sf['m'].subroutines) if form == 'mod' else list(sf.subroutines)
+
+
+def structural_problems(sf, form):
+    """independent of execution: (1) every CALL to a routine of the file supplies exactly the callee's dummies (count, keyword
+    names), (2) every variable used in the body of a (no longer contained) routine is declared in that routine"""
+    from loki.ir import FindNodes, FindVariables, CallStatement
+    from loki.expression import symbols as sym
+    tops = top_routines(sf, form)
+    every = list(tops) + [c for r in tops for c in r.subroutines]
+    by_name = {r.name.lower(): r for r in every}
+    out = []
+    for r in every:
+        for call in FindNodes(CallStatement).visit(r.body):
+            callee = by_name.get(str(call.name).lower())
+            if callee is None:
+                continue
+            dummies = [a.name.lower() for a in callee.arguments]
+            n_actual = len(call.arguments) + len(call.kwarguments)
+            if n_actual != len(dummies):
+                out.append(f"in '{r.name}': call to '{callee.name}' passes {n_actual} argument(s), dummies are {dummies}")
+            bad = [str(k) for k, _ in call.kwarguments if str(k).lower() not in dummies]
+            if bad:
+                out.append(f"in '{r.name}': keyword(s) {bad} are not dummies of '{callee.name}' {dummies}")
+    for r in tops:
+        declared = {v.name.lower() for v in r.variables}
+        called = {str(c.name).lower() for c in FindNodes(CallStatement).visit(r.body)}
+        for v in FindVariables().visit(r.body):
+            if isinstance(v, sym.ProcedureSymbol) or getattr(v, 'parent', None) or v.name.lower() in called:
+                continue
+            if v.name.lower() not in declared:
+                out.append(f"'{v.name}' is used in '{r.name}' but neither declared nor passed in")
+    return sorted(set(out))
 
 
 def positional_calls(sf):
@@ -652,7 +723,8 @@ class C33(Prop):
     rule = ('generated FIR programs (weights towards loops, IF, PRINT, scalar/element/section assignment; no ASSOCIATE in the main unit) '
             'with 1-2 disjoint `!$loki outline` regions over contiguous statement slices at any nesting depth (no escaping EXIT/CYCLE), '
             'optional name(..) and inout(..) overrides; 2-3 input sets each; plus generated hosts with an internal procedure using '
-            'host-associated scalars/arrays (module and free-file form). non-trivial = has a region')
+            'host-associated scalars/arrays and optionally a region that calls it (transform_module / transform_file x extract / outline / both); '
+            'every name occurrence respelled in random letter case in part of the cases. non-trivial = has a region')
     trusted_base = ['harness/fir.py (printer, exporter from Loki IR, reference interpreter)', 'gfortran 12.2 (thorough tier)']
     assumptions = ['marked regions contain no EXIT/CYCLE of an enclosing loop and no ASSOCIATE, and are not nested (preconditions of '
                    'outlining, not checked by Loki)', 'pragma override lists are written without blanks (`in(a,b)`)']
@@ -660,7 +732,7 @@ class C33(Prop):
                          'oracle: host with internal procedure vs extracted procedures']
 
     def classes(self):
-        return CLASS_ORDER + [K_EXT]
+        return CLASS_ORDER + [K_EXT, K_NOCONT]
 
     # ---- generation
     def gen(self, rng, tier):
@@ -673,10 +745,22 @@ class C33(Prop):
             gf = tier == 'thorough' and j % 4 == 0
             regions, _ = find_regions(prog)
             yield Case([A('outline'), prog, inputs, A('gf' if gf else 'nogf')], stream='outline', nontrivial=bool(regions))
-        n_ext = {'quick': 6, 'thorough': 24, 'search': 12}.get(tier, 6)
+        # respelled variants (every name occurrence in random letter case) of some of the programs: oracle only
+        n_case = {'quick': 5, 'thorough': 30, 'search': 15}.get(tier, 5)
+        for j in range(n_case):
+            prog = add_regions(rng, fir.gen_program(rng, GEN_CFG))
+            inputs = fir.gen_inputs(rng, prog, n_in)
+            yield Case([A('outline'), prog, inputs, A('nogf'), 1 + rng.getrandbits(20)], stream='outline-case',
+                       nontrivial=bool(find_regions(prog)[0]))
+        # hosts with an internal procedure (+ optionally a region); entry points x flags
+        n_ext = {'quick': 8, 'thorough': 36, 'search': 16}.get(tier, 8)
+        plan = [('mod', 'extract', None), ('mod', 'both', 'call'), ('mod', 'extract', None), ('mod', 'both', 'call'),
+                ('mod', 'both', 'nocall'), ('file', 'both', 'call'), ('mod', 'outline', 'nocall'), ('file', 'outline', 'nocall'),
+                ('mod', 'extract', 'call'), ('file', 'extract', None), ('mod', 'both', 'call'), ('file', 'both', 'nocall')]
         for j in range(n_ext):
-            src, ref = extract_source(rng)
-            yield Case([A('extract'), src, [ref], A('file' if j % 6 == 5 else 'mod')], stream='extract')
+            form, flags, region = plan[j % len(plan)]
+            src, ref = extract_source(rng, region)
+            yield Case([A('extract'), src, [ref], A(form), A(flags)], stream='extract')
 
     def shrink_candidates(self, req):
         """structure-preserving shrinking: drop one non-marker statement of the main unit, or one input set"""
@@ -786,21 +870,48 @@ class C33(Prop):
                     return [Failure(f'outline: transformed program behaves differently (gfortran): {d}', cls)]
         return fails
 
-    def oracle_extract(self, src, ref_src, form):
-        """host + internal procedure (reference = hand-inlined equivalent, executed by the interpreter) vs the really
-        extracted procedures (gfortran syntax check of Loki's own text; exported to FIR after making the keyword call
-        positional, executed by the interpreter)"""
-        cls = K_EXT if form == 'file' else None      # Lean: KnownExtractExternal
+    def oracle_extract(self, src, ref_src, form, flags='extract'):
+        """host + internal procedure (reference = hand-inlined equivalent, executed by the interpreter) vs the result of the
+        real ExtractTransformation entry point: gfortran syntax check of Loki's own text, structural consistency (every call
+        against its callee, every used name declared), then the keyword calls made positional, exported to FIR and executed.
+        flags 'outline' alone leaves the internal procedure in place (outside FIR): a second real pass with flags 'extract'
+        follows before the export."""
+        fails = []
         ref = fir.export_unit(fir.parse_fortran(ref_src), main='kernel')
         try:
-            sf, text = real_extract(src, form)
+            sf, text = real_extract(src, form, flags)
+        except TransformError as e:
+            known = flags != 'outline' and known_no_contains(src) and 'AttributeError' in str(e)
+            return [Failure(f'extract[{form},{flags}]: transformation raised {str(e)[:140]}', K_NOCONT if known else None)]
+        err = fir.gfortran_syntax_check(text)
+        if err:
+            # Lean: KnownExtractExternal — keyword call to an external procedure (free-file form with extraction)
+            known = form == 'file' and flags != 'outline' and 'Keyword argument requires explicit interface' in err
+            fails.append(Failure(f'extract[{form},{flags}]: gfortran rejects the source printed by fgen: {err[:160]}',
+                                 K_EXT if known else None))
+            if not known:
+                return fails
+        probs = structural_problems(sf, form)
+        if probs:
+            return fails + [Failure(f'extract[{form},{flags}]: inconsistent result: ' + '; '.join(probs)[:300], None)]
+        try:
+            if flags == 'outline':
+                # (not through ExtractTransformation: it crashes on the outlined routines, which have no CONTAINS section —
+                #  class extract-no-contains-crash)
+                from loki.transformations.extract import extract_internal_procedures
+                for r in top_routines(sf, form):
+                    if r.contains is not None:
+                        new = extract_internal_procedures(r)
+                        (sf['m'].contains if form == 'mod' else sf.ir).append(new)
+                probs = structural_problems(sf, form)
+                if probs:
+                    return fails + [Failure(f'extract[{form},outline then extract]: inconsistent result: '
+                                            + '; '.join(probs)[:300], None)]
             positional_calls(sf)
             tp = fir.export_unit(sf['m'] if form == 'mod' else sf, main='kernel')
         except (TransformError, fir.Unsupported) as e:
-            return [Failure(f'extract: transformation or export of its result raised {type(e).__name__}: {str(e)[:120]}', cls)]
-        err = fir.gfortran_syntax_check(text)
-        if err:
-            return [Failure(f'extract: gfortran rejects the extracted source printed by fgen: {err[:160]}', cls)]
+            return fails + [Failure(f'extract[{form},{flags}]: transformation or export of its result raised '
+                                    f'{type(e).__name__}: {str(e)[:120]}', None)]
         rng = _random.Random(len(src) * 7919 + sum(map(ord, src)))
         for inp in fir.gen_inputs(rng, ref, 3):
             a = fir.interp(ref, inp)
@@ -809,8 +920,8 @@ class C33(Prop):
             b = fir.interp(tp, inp)
             d = fir.compare_results(a, b, undef_wild=False)
             if d:
-                return [Failure(f'extract: extracted program behaves differently (interpreter): {d}', cls)]
-        return []
+                return fails + [Failure(f'extract[{form},{flags}]: transformed program behaves differently (interpreter): {d}', None)]
+        return fails
 
 
 PROP = C33()
